@@ -85,6 +85,30 @@ def run(tier, seed, replay=None):
     cv = ck.validate(DIR, "PathsTrace", [c for c, _ in ctl], "negative controls")
     for (c, exp), v in zip(ctl, cv):
         ck.control(f"corrupted trace rejected ({exp} -> {v['why']})", (not v["ok"]) and exp in v["why"], str(v))
+    # ---- step level: every node dijkstra / astar take off the frontier, with its label, against the label-setting invariant
+    st = [r for r in run_tasks("paths", "run_settle", gcases[: 300 if tier == "quick" else 4000], timeout=120) if isinstance(r, dict) and "calls" in r]
+    if st:
+        sv = ck.validate(DIR, "SettleSteps", st, "settle events of dijkstra / astar", timeout=3000)
+        for v in sv:
+            for d in v.get("div", []):
+                ck.divergences["settle:" + d] = ck.divergences.get("settle:" + d, 0) + 1
+        ck.extra["settle_step_level"] = {"graphs": len(st), "calls": sum(v.get("calls", 0) for v in sv), "nodes_settled": sum(v.get("settled", 0) for v in sv),
+                                         "graphs_with_divergence": sum(1 for v in sv if v.get("div"))}
+        sctl = []
+        for t, v in zip(st, sv):
+            cs = [i for i, c in enumerate(t["calls"]) if len(c["settled"]) >= 3 and c["exact"]]
+            if v.get("div") or not cs:
+                continue
+            i = cs[0]
+            c = copy.deepcopy(t); c["calls"][i]["settled"][-1][1] += 1; sctl.append((c, "Settle.label_is_not"))
+            c = copy.deepcopy(t); c["calls"][i]["settled"].append(list(c["calls"][i]["settled"][0])); sctl.append((c, "Settle.node_settled_twice"))
+            break
+        if not sctl:
+            raise tlc.MachineryError("no settle trace suitable for step-level controls")
+        for (c, exp), v in zip(sctl, ck.validate(DIR, "SettleSteps", [c for c, _ in sctl], "step-level negative controls")):
+            ck.control(f"corrupted settle event flagged ({exp}*)", any(exp in d for d in v.get("div", [])), str(v)[:300])
+    else:
+        ck.notes.append("no settle events were recorded (hooks absent): label-setting step level skipped")
     ck.rule = ("random digraphs with 1-9 nodes, duplicate edges with different weights, self loops, zero weights, 35% with negative "
                "weights, integer or quarter-unit weights, int/str/tuple/negative labels, 2 queries each (value and predicate goals, "
                "max_cost); every applicable solver per graph; all 2x3 / 3x2 grids (3x3, 3x4 thorough) with every obstacle layout in "
